@@ -3,8 +3,15 @@
 
   About the control-skeleton model `Svgdx.Ctl` (tied to context.rs / transform.rs / reuse.rs by the probe
   and document correspondence streams), parametric in the expression evaluator.
+
+  Element defaults (`<defaults>`, `Svgdx.Ctl.Defaults`) are scoped like variables - they live in the same
+  scope stack: `defaults_restored`, `defaults_never_override`, `defaults_innermost_wins`,
+  `defaults_renders_nothing`, and a closed instance checked against the text svgdx writes.
 -/
 import Svgdx.Proofs.CtlInv
+import Svgdx.Proofs.DefaultsApply
+import Svgdx.Ctl.SimpleEval
+import Svgdx.Xml.Write
 
 namespace Svgdx.Props.C15
 open Svgdx Ctl
@@ -143,6 +150,283 @@ theorem var_touches_innermost_only (ev : Evalr ρ) (st : St ρ) (e : Elem) (h : 
     (genVar ev st e).1.scopes.tail = st.scopes.tail :=
   (inv_genVar ev st e h).2.1
 
+
+/-! ### element defaults are scoped like variables -/
+
+theorem clipPost_scopes (ev : Evalr ρ) (e : Elem) (x : St ρ × Res) : (clipPost ev e x).1.scopes = x.1.scopes := by
+  unfold clipPost
+  split
+  · split
+    · split
+      · rfl
+      · split
+        · split
+          · rfl
+          · exact updateElement_scopes ev _ _
+          · rfl
+        · rfl
+    · rfl
+  · rfl
+
+theorem genGroup_scopes (ev : Evalr ρ) (fuel : Nat) (st : St ρ) (e : Elem) (kids : Option Nodes) (h : st.scopes ≠ []) :
+    (genGroup ev fuel st e kids).1.scopes = st.scopes := by
+  cases fuel with
+  | zero => rfl
+  | succ f => exact (group_restores_bindings ev f st e kids h).1
+
+/-- `<reuse>`: the scope pushed for the reuse element is popped again, whatever the outcome -/
+theorem genReuse_scopes (ev : Evalr ρ) (fuel : Nat) (st : St ρ) (e : Elem) (h : st.scopes ≠ []) :
+    (genReuse ev fuel st e).1.scopes = st.scopes := by
+  cases fuel with
+  | zero => rfl
+  | succ f =>
+    rw [genReuse]
+    have hw := withRng_scopes st (evalAttributes ev st e)
+    have h1 : (withRng st (evalAttributes ev st e)).1.scopes ≠ [] := by rw [hw]; exact h
+    apply seq_scopes _ _ _ hw
+    intro re
+    have hp : ((withRng st (evalAttributes ev st e)).1.pushElement re).scopes ≠ [] := by simp [St.pushElement]
+    have hbody : Inv ((withRng st (evalAttributes ev st e)).1.pushElement re)
+        (seq (reusePrepare ev ((withRng st (evalAttributes ev st e)).1.pushElement re) re) fun st1 ik =>
+          match ik.2 with
+          | some ks => processNodes ev f st1 (Nodes.cons (.elem ik.1 (some ks) none) .nil)
+          | none => genElem ev f st1 ik.1 none).1 := by
+      apply inv_seq _ _ (inv_reusePrepare ev _ re hp)
+      intro h2 ik
+      split
+      · exact (allInv ev f).processNodes _ _ h2
+      · exact (allInv ev f).genElem _ _ _ h2
+    exact ((inv_push_pop re hbody h1).2).trans hw
+
+theorem dispatch_group (ev : Evalr ρ) (f : Nat) (st : St ρ) (e : Elem) (kids : Option Nodes)
+    (h : e.name = ['g'] ∨ e.name = cs!"symbol") : dispatch ev (f + 1) st e kids = genGroup ev f st e kids := by
+  unfold dispatch
+  rcases h with h | h <;> simp only [h] <;> rfl
+
+theorem dispatch_reuse (ev : Evalr ρ) (f : Nat) (st : St ρ) (e : Elem) (kids : Option Nodes)
+    (h : e.name = cs!"reuse") : dispatch ev (f + 1) st e kids = genReuse ev f st e := by
+  unfold dispatch
+  simp only [h]
+  rfl
+
+/-- after a `<g>` / `<symbol>` / `<reuse>` the whole scope stack is what it was -/
+theorem scoped_element_restores_scopes (ev : Evalr ρ) (fuel : Nat) (st : St ρ) (e : Elem) (kids : Option Nodes)
+    (h : st.scopes ≠ []) (hn : e.name = ['g'] ∨ e.name = cs!"symbol" ∨ e.name = cs!"reuse") :
+    (genElem ev fuel st e kids).1.scopes = st.scopes := by
+  cases fuel with
+  | zero => rfl
+  | succ f =>
+    rw [genElem]
+    split
+    · rfl
+    · rw [clipPost_scopes]
+      show (dispatch ev f { st with depth := st.depth + 1 } e kids).1.scopes = st.scopes
+      cases f with
+      | zero => rfl
+      | succ f =>
+        rcases hn with hn | hn | hn
+        · rw [dispatch_group ev f _ e kids (Or.inl hn)]; exact genGroup_scopes ev f _ e kids h
+        · rw [dispatch_group ev f _ e kids (Or.inr hn)]; exact genGroup_scopes ev f _ e kids h
+        · rw [dispatch_reuse ev f _ e kids hn]; exact genReuse_scopes ev f _ e h
+
+/-- **defaults set inside a group (or while a `<reuse>` is instantiated) are discarded when it closes**: after
+    `<g>…</g>`, `<symbol>` or `<reuse>`, on success and on failure alike, the list of defaults in force is the one
+    before the element, so every later element is defaulted as if the group had not been there -/
+theorem defaults_restored (ev : Evalr ρ) (fuel : Nat) (st : St ρ) (e : Elem) (kids : Option Nodes)
+    (h : st.scopes ≠ []) (hn : e.name = ['g'] ∨ e.name = cs!"symbol" ∨ e.name = cs!"reuse") :
+    defaultsInForce (genElem ev fuel st e kids).1.scopes = defaultsInForce st.scopes ∧
+    ∀ x, applyDefaults (genElem ev fuel st e kids).1 x = applyDefaults st x := by
+  have := scoped_element_restores_scopes ev fuel st e kids h hn
+  exact ⟨by rw [this], fun x => by simp only [applyDefaults, this]⟩
+
+/-- … and for ANY element the defaults of every enclosing scope are untouched (only the innermost scope can gain
+    defaults: `<defaults>` stores into it, as `<var>` assigns into it) -/
+theorem outer_defaults_untouched (ev : Evalr ρ) (fuel : Nat) (st : St ρ) (e : Elem) (kids : Option Nodes)
+    (h : st.scopes ≠ []) :
+    (genElem ev fuel st e kids).1.scopes.tail.map (·.defaults) = st.scopes.tail.map (·.defaults) := by
+  rw [(scopes_restored ev fuel st e kids h).1]
+
+/-- **an attribute the element already has is kept** (for every attribute but `style`, `text-style`, `transform`,
+    which are joined with the defaults): whatever defaults are in force -/
+theorem defaults_never_override (st : St ρ) (e : Elem) (k : Str) (hn : Attrs.NodupKeys e.attrs)
+    (hk : k ∉ augKeys) (h : e.hasAttr k = true) : (applyDefaults st e).getAttr k = e.getAttr k := by
+  unfold applyDefaults
+  rw [get_applyDefaultList _ e hn k hk]
+  simp only [Elem.hasAttr, Attrs.contains] at h
+  simp only [Elem.getAttr]
+  cases hg : Attrs.get e.attrs k with
+  | none => rw [hg] at h; cases h
+  | some v => rfl
+
+/-- … and an attribute the element lacks gets the accumulated default, if there is one -/
+theorem defaults_fill_missing (st : St ρ) (e : Elem) (k : Str) (hn : Attrs.NodupKeys e.attrs)
+    (hk : k ∉ augKeys) (h : e.getAttr k = none) :
+    (applyDefaults st e).getAttr k = Attrs.get (collectDefaults (defaultsInForce st.scopes) e).attrs k := by
+  unfold applyDefaults
+  rw [get_applyDefaultList _ e hn k hk, h]
+  rfl
+
+theorem applyOne_of_match (el : Elem) (acc : DefAcc) (d : ElementMatch × Elem) (hd : acc.done = false)
+    (hm : d.1.matchesElem el = true) :
+    (applyOne el acc d).attrs =
+      (if d.1.isInit then (strippedDefault d.2).attrs else attrsUpdate acc.attrs (strippedDefault d.2).attrs) ∧
+    (applyOne el acc d).done = d.1.isFinal := by
+  unfold applyOne
+  simp only [hd, hm, Bool.not_true, Bool.or_self, Bool.false_eq_true, if_false]
+  constructor <;> first | rfl | trivial
+
+theorem attrsUpdate_nodup (a b : Attrs) (h : Attrs.NodupKeys a) : Attrs.NodupKeys (attrsUpdate a b) := by
+  unfold attrsUpdate
+  induction b generalizing a with
+  | nil => exact h
+  | cons x xs ih => rw [List.foldl_cons]; exact ih _ (Attrs.insert_nodup h _ _)
+
+/-- **the more local default wins**: two defaults that both match the element, one stored in an outer scope and one
+    in the scope inside it, both giving attribute `k` - the element (which has no `k` of its own) gets the inner
+    value. (Unless the outer one is `final`: that ends the walk before the inner scope is reached.) -/
+theorem defaults_innermost_wins (st : St ρ) (e : Elem) (k vi : Str) (inner outer : Scope) (mo mi : ElementMatch)
+    (dO dI : Elem) (hs : st.scopes = [inner, outer]) (hO : outer.defaults = [(mo, dO)]) (hI : inner.defaults = [(mi, dI)])
+    (hmo : mo.matchesElem e = true) (hmi : mi.matchesElem e = true) (hfin : mo.isFinal = false)
+    (hne : Attrs.NodupKeys e.attrs) (hnO : Attrs.NodupKeys dO.attrs) (hnI : Attrs.NodupKeys dI.attrs)
+    (hk : k ∉ augKeys) (he : e.getAttr k = none) (hi : dI.getAttr k = some vi) :
+    (applyDefaults st e).getAttr k = some vi := by
+  rw [defaults_fill_missing st e k hne hk he]
+  have hforce : defaultsInForce st.scopes = [(mo, dO), (mi, dI)] := by
+    simp [defaultsInForce, hs, hO, hI]
+  rw [hforce]
+  simp only [collectDefaults, List.foldl_cons, List.foldl_nil]
+  obtain ⟨ha1, hd1⟩ := applyOne_of_match e {} (mo, dO) rfl hmo
+  have hd1' : (applyOne e {} (mo, dO)).done = false := by rw [hd1]; exact hfin
+  obtain ⟨ha2, _⟩ := applyOne_of_match e (applyOne e {} (mo, dO)) (mi, dI) hd1' hmi
+  rw [ha2]
+  have hsI : Attrs.get (strippedDefault dI).attrs k = some vi := by
+    rw [strippedDefault_get dI k hk]; exact hi
+  split
+  · exact hsI
+  · have hn1 : Attrs.NodupKeys (applyOne e {} (mo, dO)).attrs := by
+      rw [ha1]
+      split
+      · exact strippedDefault_nodup hnO
+      · exact attrsUpdate_nodup _ _ (by simp [Attrs.NodupKeys, Attrs.keys])
+    unfold attrsUpdate
+    rw [Attrs.get_foldl_insert _ _ hn1 (strippedDefault_nodup hnI), hsI]
+    rfl
+
+/-- **`<defaults>` renders nothing**: no events, no box; all it does is store the elements inside it, at every
+    nesting level and in document order, into the innermost scope -/
+theorem defaults_renders_nothing (ev : Evalr ρ) (fuel : Nat) (st : St ρ) (e : Elem) (kids : Option Nodes)
+    (hn : e.name = cs!"defaults") :
+    dispatch ev (fuel + 1) st e kids =
+      ((match kids with
+        | some ks => (subElemsNodes ks).foldl St.setElementDefault st
+        | none => st), .ok ([], none)) ∧
+    ∀ evs bb, (genElem ev fuel st e kids).2 = .ok (evs, bb) → evs = [] ∧ bb = none := by
+  have hd : ∀ (f : Nat) (s : St ρ), dispatch ev (f + 1) s e kids = genDefaults s kids := by
+    intro f s
+    unfold dispatch
+    simp only [hn]
+    rfl
+  refine ⟨hd fuel st, ?_⟩
+  intro evs bb h
+  cases fuel with
+  | zero => simp [genElem] at h
+  | succ f =>
+    rw [genElem] at h
+    split at h
+    · cases h
+    · cases f with
+      | zero => simp [dispatch, clipPost] at h
+      | succ f =>
+        simp only [hd, genDefaults, clipPost, Except.ok.injEq, Prod.mk.injEq] at h
+        exact ⟨h.1.symm, h.2.symm⟩
+
+/-! ### closed instance: the element-reference example, against the text svgdx writes
+
+  `<defaults><rect fill="red" class="a"/><_ match=".big" rx="2"/></defaults><rect wh="2"/><rect wh="2" class="big" fill="blue"/>` -/
+
+namespace DefaultsExample
+
+def doc : Nodes := Nodes.ofList [
+  .elem (Elem.new cs!"defaults" []) (some (Nodes.ofList [
+    .elem (Elem.new cs!"rect" [(cs!"fill", cs!"red"), (cs!"class", ['a'])]) none none,
+    .elem (Elem.new ['_'] [(cs!"match", cs!".big"), (cs!"rx", ['2'])]) none none])) none,
+  .elem (Elem.new cs!"rect" [(cs!"wh", ['2'])]) none none,
+  .elem (Elem.new cs!"rect" [(cs!"wh", ['2']), (cs!"class", cs!"big"), (cs!"fill", cs!"blue")]) none none]
+
+def st0 : St Nat := { rng := 0, scopes := [{}] }
+
+def out : Str := match (processNodes simpleEvalr 12 st0 doc).2 with
+  | .ok (evs, _) => Xml.write evs
+  | .error _ => cs!"error"
+
+/-- the first rectangle gets `fill` and the class; the second keeps its own `fill`, gets `rx` (it has class `big`)
+    and the class `a` after its own - byte for byte what `svgdx --no-auto-styles` writes for this input -/
+theorem renders :
+    out = cs!"<rect width=\"2\" height=\"2\" fill=\"red\" class=\"a\"/><rect width=\"2\" height=\"2\" rx=\"2\" fill=\"blue\" class=\"big a\"/>" := by
+  decide +kernel
+
+/-- two defaults are stored in the one scope, and nowhere else -/
+theorem stored : (processNodes simpleEvalr 12 st0 doc).1.scopes.map (·.defaults.length) = [2] := by
+  decide +kernel
+
+def st1 : St Nat := (processNodes simpleEvalr 12 st0 doc).1
+def big : Elem := Elem.new cs!"rect" [(cs!"wh", ['2']), (cs!"class", cs!"big"), (cs!"fill", cs!"blue")]
+
+/-- the hypotheses of `defaults_never_override` hold of the second rectangle, and its `fill` is indeed kept -/
+example :
+    Attrs.NodupKeys big.attrs ∧ cs!"fill" ∉ augKeys ∧ big.hasAttr cs!"fill" = true ∧
+    (applyDefaults st1 big).getAttr cs!"fill" = some cs!"blue" ∧ (applyDefaults st1 big).getAttr cs!"rx" = some ['2'] := by
+  unfold Attrs.NodupKeys
+  decide +kernel
+
+/-- the hypotheses of `defaults_innermost_wins` are satisfiable: outer `<rect fill="red"/>`, inner `<rect fill="blue"/>` -/
+def dO : ElementMatch × Elem := defaultEntry (Elem.new cs!"rect" [(cs!"fill", cs!"red")])
+def dI : ElementMatch × Elem := defaultEntry (Elem.new cs!"rect" [(cs!"fill", cs!"blue")])
+def st2 : St Nat := { rng := 0, scopes := [{ defaults := [dI] }, { defaults := [dO] }] }
+def plain : Elem := Elem.new cs!"rect" [(cs!"wh", ['2'])]
+
+example :
+    dO.1.matchesElem plain = true ∧ dI.1.matchesElem plain = true ∧ dO.1.isFinal = false ∧
+    Attrs.NodupKeys plain.attrs ∧ Attrs.NodupKeys dO.2.attrs ∧ Attrs.NodupKeys dI.2.attrs ∧
+    plain.getAttr cs!"fill" = none ∧ dI.2.getAttr cs!"fill" = some cs!"blue" ∧
+    (applyDefaults st2 plain).getAttr cs!"fill" = some cs!"blue" := by
+  unfold Attrs.NodupKeys
+  decide +kernel
+
+/-! #### two facts about svgdx the model reproduces (both confirmed on the binary), kernel-checked
+
+  (1) defaults are NOT lexical with respect to the retry loop: an element written BEFORE the `<defaults>` element
+      that has to wait for a forward reference is attempted again after the `<defaults>` has been processed, and
+      then gets them: `<rect xy="#a|h" wh="2"/><defaults><rect fill="red"/></defaults><rect id="a" wh="3"/>`
+      writes `fill="red"` on the first rectangle too.
+  (2) `apply_defaults` does not tell svgdx's own elements from SVG elements: a default for `_` lands on `<var/>`
+      (and `<config/>`, `<reuse/>`, …) - `<defaults><_ fill="red"/></defaults><var a="1"/>` also sets `$fill`. -/
+
+def docOrder : Nodes := Nodes.ofList [
+  .elem (Elem.new cs!"rect" [(cs!"xy", cs!"#a|h"), (cs!"wh", ['2'])]) none none,
+  .elem (Elem.new cs!"defaults" []) (some (Nodes.ofList [
+    .elem (Elem.new cs!"rect" [(cs!"fill", cs!"red")]) none none])) none,
+  .elem (Elem.new cs!"rect" [(cs!"id", ['a']), (cs!"wh", ['3'])]) none none]
+
+theorem defaults_reach_backwards_on_retry :
+    (match (processNodes simpleEvalr 12 st0 docOrder).2 with
+      | .ok (evs, _) => Xml.write evs
+      | .error _ => cs!"error") =
+    cs!"<rect x=\"3\" y=\"0.5\" width=\"2\" height=\"2\" fill=\"red\"/><rect id=\"a\" width=\"3\" height=\"3\" fill=\"red\"/>" := by
+  decide +kernel
+
+def docVar : Nodes := Nodes.ofList [
+  .elem (Elem.new cs!"defaults" []) (some (Nodes.ofList [
+    .elem (Elem.new ['_'] [(cs!"fill", cs!"red")]) none none])) none,
+  .elem (Elem.new cs!"var" [(['a'], ['1'])]) none none]
+
+theorem defaults_apply_to_var_elements :
+    (processNodes simpleEvalr 12 st0 docVar).1.lookup cs!"fill" = some cs!"red" ∧
+    (processNodes simpleEvalr 12 st0 docVar).1.lookup ['a'] = some ['1'] := by
+  decide +kernel
+
+end DefaultsExample
+
 /-- non-vacuity: a concrete nested state in which the hypotheses hold and shadowing is observable -/
 example :
     let st : St Nat := { rng := 0, scopes := [{ vars := [(cs!"fill", cs!"blue")] }] }
@@ -160,3 +444,13 @@ end Svgdx.Props.C15
 #print axioms Svgdx.Props.C15.var_parallel_assignment
 #print axioms Svgdx.Props.C15.var_touches_innermost_only
 #print axioms Svgdx.Props.C15.env_denotes_lookup
+#print axioms Svgdx.Props.C15.defaults_restored
+#print axioms Svgdx.Props.C15.outer_defaults_untouched
+#print axioms Svgdx.Props.C15.defaults_never_override
+#print axioms Svgdx.Props.C15.defaults_fill_missing
+#print axioms Svgdx.Props.C15.defaults_innermost_wins
+#print axioms Svgdx.Props.C15.defaults_renders_nothing
+#print axioms Svgdx.Props.C15.DefaultsExample.renders
+#print axioms Svgdx.Props.C15.DefaultsExample.stored
+#print axioms Svgdx.Props.C15.DefaultsExample.defaults_reach_backwards_on_retry
+#print axioms Svgdx.Props.C15.DefaultsExample.defaults_apply_to_var_elements
